@@ -232,5 +232,15 @@ CHECKS["C19"] = dict(
          "multisets / sets are classified as the known tabling deviations).",
     design_ref="DESIGN.md §5 C19", note=_TERM_NOTE, technique="TLA+ per-world SLD semantics with exact weights evaluated by TLC on recorded answers")
 
+CHECKS["C20"] = dict(
+    category="exploration",
+    text="Propositional programs (facts, body-free ADs, rules with negation, positive/negative evidence on derived and choice "
+         "atoms, every choice atom queried) are run through both MPE modes; JudgeMPE.tla (over Semantics.tla) computes exactly "
+         "P(evidence), the weight of the most probable evidence-satisfying world, the best such world consistent with the "
+         "returned assignment and that assignment's marginal; verdict clauses: unsatisfiable reported iff P(evidence) = 0, the "
+         "assignment is extendable to a most probable world, the reported probability is that world's or the assignment's.",
+    design_ref="DESIGN.md §5 C20", note=SEM_NOTE + " MaxSAT quantisation: worlds within 0.1% of the optimum accepted.",
+    technique="TLA+ possible-world semantics (max over worlds) evaluated by TLC on recorded MPE answers")
+
 NOT_YET = "check not built yet in this round (planned in DESIGN.md §5); not claimed"
 NOT_APPLICABLE = {}
